@@ -3,11 +3,13 @@ PROP = dict(
     harness_mods=["Harness/C01.v"],
     runs=[dict(cmd="c01", quick=6, thorough=120, timeout=3000)],
     trusted_base=[
-        "hand-written Gallina models coq/Node/Layers.v (store layers, flush, prune, restart; the interpreter is a parameter) and "
+        "hand-written Gallina models coq/Node/Layers.v (store layers, flush, prune, restart; the interpreter is a parameter), coq/Node/FlushFail.v (one cache map, batch of a flush in progress, success / failure of the write) and "
         "coq/Tokens/Model.v + coq/Node/Gov.v (NEO/Policy/Designate/Management caches as derived state, reinit = InitializeCache), tied by differential comparison only",
         "harness/c01.go + c05chain.go: source node + replicas on real Blockchain instances (memory/LevelDB/BoltDB), observation through public getters, "
         "SeekStorage, GetAppExecResults, GetStateRoot and read-only contract invocations",
         "hook pkg/core/verif_hooks.go (VerifPersist / VerifPersistGC): one synchronous flush of the write cache at a block boundary",
+        "harness/c01fault.go: a wrapping lower store whose PutChangeSet can be blocked and made to fail; hooks VerifPersistAsTimer (a flush without addLock, as the timer of Run), "
+        "VerifWriteCache + MemCachedStore.VerifRLock / VerifPendingChanges (read-only: what the cache holds, for the coverage counters x_fault_*)",
         "behaviour probes c05Probe (which of the repaired behaviours F7/F23/F47 the tree has; sets three model flags)",
     ],
     assumptions=[
@@ -21,12 +23,12 @@ PROP = dict(
              "the mempool and the real goroutine schedule are covered by the replica differential only",
 )
 META = dict(
-    text="Proved in Coq: a flush at any time changes no answer; replicas fed the same blocks under any flush/prune/restart schedules agree on all state keys, results and height "
+    text="Proved in Coq: a flush at any time changes no answer; a flush whose write FAILS (the batch put back under whatever the cache received while it was being written: any keys, values, deletions, more or fewer than the batch) changes no answer and not the database, a node under any schedule of begun / succeeded / failed flushes with blocks in between agrees with every other replica, and the wrong merges (older wins, bigger map as target, batch dropped, newer deletions lost) are refuted; replicas fed the same blocks under any flush/prune/restart schedules agree on all state keys, results and height "
          "(interpreter = any function of state keys); for every block history the incrementally maintained NEO, Policy, Designate and Management caches (committee, next-epoch committee, votesChanged, "
          "gas-per-vote, gas-per-block, register price, blocked accounts, fee settings, whitelisted fees, latest designation per role, contract states) are coherent with storage after every block, and a restart after ANY block (any number of restarts) "
          "leaves the storage of the modelled contracts and every committee / validator / policy / getDesignatedByRole(role, any index) / getContract / whitelisted-fee answer unchanged after ANY continuation (simulation proof), including GetGASPerBlock(index) for every index and the holder-reward sum over the gas-per-block history, whose cache may hold several records of one index (last appended wins; the reading first-of-equal-indices is refuted by theorem) — for the repaired code; for the unrepaired code the three counter-example histories (findings F7, F23, F47) are theorems. "
          "Tied to the real node by a replica differential: the same blocks on memory/LevelDB/BoltDB replicas with random flush points (hook VerifPersist), KeepOnlyLatestState, "
-         "RemoveUntraceableBlocks+GC, SkipBlockVerification, VerifyTransactions off, every further bool/int node-local option found by reflection over config.Blockchain (SaveInvocations, SaveStorageBatch, GarbageCollectionPeriod, MemPoolSize, MempoolSubscriptionsEnabled, ...) toggled singly and in combinations, mempool junk and a restart at every height, histories including designations of several roles across blocks queried at historic heights, contract deploy/update/whitelist/destroy/redeploy sequences, NotaryAssisted transactions, Storage.Find / getAllCandidates / getContractHashes manifests of every optional shape (empty / explicit / wildcard method lists, hash / group / wildcard descriptors, groups, trusts, safe methods, standards, extra) followed by calls, writes and CheckWitness that depend on each detail, settings updated several times within one block and used in the next, iterators whose values are held across Next (every option class, items flushed or re-read after a restart, the same read twice), calls with unusual arguments (iterators, pointers, self-referencing and deeply nested items, buffers around MaxSize), comparing state root, full contract storage, execution results and "
+         "RemoveUntraceableBlocks+GC, SkipBlockVerification, VerifyTransactions off, every further bool/int node-local option found by reflection over config.Blockchain (SaveInvocations, SaveStorageBatch, GarbageCollectionPeriod, MemPoolSize, MempoolSubscriptionsEnabled, ...) toggled singly and in combinations, mempool junk and a restart at every height, four replicas per history on a lower store whose PutChangeSet is blocked while the next 0-5 blocks are added and then fails 1-3 times (batch = one block or up to five; the blocks added meanwhile overwrite and delete keys of the batch and re-create keys it deleted, waves of contract keys put / swept / put again in consecutive blocks; compared while the flush hangs, after each failure, after the next flush that succeeds and after a restart), histories including designations of several roles across blocks queried at historic heights, contract deploy/update/whitelist/destroy/redeploy sequences, NotaryAssisted transactions, Storage.Find / getAllCandidates / getContractHashes manifests of every optional shape (empty / explicit / wildcard method lists, hash / group / wildcard descriptors, groups, trusts, safe methods, standards, extra) followed by calls, writes and CheckWitness that depend on each detail, settings updated several times within one block and used in the next, iterators whose values are held across Next (every option class, items flushed or re-read after a restart, the same read twice), calls with unusual arguments (iterators, pointers, self-referencing and deeply nested items, buffers around MaxSize), comparing state root, full contract storage, execution results and "
          "all getters at every height, and on every node the iterator answers against a plain Seek dump of the same node; plus the governance model against the source node's getters. Partial: the interpreter (VM, natives outside NEO/GAS/Policy/Notary/Designate/Management) is a parameter of the store theorems; "
          "the NEP-11/17 lists of Management and the Oracle/Notary settings caches are not modelled (compared on the real replicas only).",
     note="Trusted: Coq kernel + vm_compute, the hand-written models (tied by differential comparison only), the Go harness, the VerifPersist hook, ./check. "
